@@ -101,6 +101,9 @@ class LayeredRayTracing2D(_AbstractDistribution):
         self, velocities: _numpy.ndarray, verbose=None, force_new_angles=False
     ) -> float:
         velocities = velocities.flatten()
+        if self.misfit_bounds(velocities[:, None]) == _numpy.inf:
+            # Outside the bounds (update_bounds): zero probability, no rays to trace
+            return _numpy.inf
         if verbose is None:
             verbose = self.verbose
         traveltimes_synthetic = self.forward(
